@@ -325,6 +325,11 @@ type Finding struct {
 	Match          string `json:"match"`                      // regexp over the violation message
 	RaceBothStacks string `json:"race_both_stacks,omitempty"` // data races: regexp that every access stack of the report must contain
 	RaceTopFrame   string `json:"race_top_frame,omitempty"`   // data races: regexp that the innermost non-runtime frame of one access must match
+	// DeathInVariant: a process death (no race report) in this run variant is
+	// this finding too: the variant exists only to exercise the finding
+	// unshielded, and memory the race corrupts can crash the reader before
+	// the detector reports the racing access
+	DeathInVariant string `json:"death_in_variant,omitempty"`
 	What           string `json:"what"`
 	Status         string `json:"status"` // known | fixed
 	Commit         string `json:"commit,omitempty"`
@@ -407,6 +412,15 @@ func raceTopFrame(report string, re *regexp.Regexp) bool {
 		}
 	}
 	return false
+}
+
+func deathFinding(fs []Finding, prop, variant string) *Finding {
+	for i := range fs {
+		if f := &fs[i]; f.Status == "known" && f.Property == prop && f.DeathInVariant != "" && f.DeathInVariant == variant {
+			return f
+		}
+	}
+	return nil
 }
 
 func matchFinding(fs []Finding, prop string, v *Violation) *Finding {
@@ -706,6 +720,15 @@ func sweep(bin string, def *checkDef, check, tier string, baseSeed uint64, cfg t
 						}
 						stop = true
 					}
+				case r.died && deathFinding(findings, def.property, jcheck) != nil:
+					f := deathFinding(findings, def.property, jcheck)
+					r.Violation = &Violation{Oracle: "process-died", Msg: "process death in the dedicated unshielded probe " + jcheck + ": " + faultHead(r.stderr, 12)}
+					r.Seed, r.Check = job.Seed, jcheck
+					if _, ok := known[f.What]; !ok {
+						known[f.What] = r
+					}
+					a.runs++
+					a.probes["known-finding-process-death"]++
 				case r.died:
 					// the process died (SIGSEGV, fatal error, race report): this is
 					// a property verdict only if it reproduces in a fresh worker
@@ -722,7 +745,7 @@ func sweep(bin string, def *checkDef, check, tier string, baseSeed uint64, cfg t
 						}
 						stop = true
 					} else {
-						harness = append(harness, fmt.Sprintf("worker died on seed %d but not on re-execution:\n%s", job.Seed, lastLines(r.stderr, 30)))
+						harness = append(harness, fmt.Sprintf("worker died on seed %d but not on re-execution:\n%s\n[...]\n%s", job.Seed, faultHead(r.stderr, 40), lastLines(r.stderr, 12)))
 						stop = true
 					}
 				case r.Harness != "":
